@@ -118,6 +118,16 @@ impl Model {
     pub fn new() -> Model {
         Model { mode: Mode::Idle, entries: vec![], pending_extra: vec![], comment: vec![], final_comment: None, open_at_failure: None }
     }
+    /// A writer re-opened with `new_append` on source archive `src`: its `n` entries are already present (the model
+    /// lists them as copies of the source's entries), nothing has been started through this writer yet.
+    pub fn appended(src: usize, n: usize, comment: Vec<u8>) -> Model {
+        let mut m = Model::new();
+        for i in 0..n {
+            m.push_raw(src, i, None, true);
+        }
+        m.comment = comment;
+        m
+    }
     pub fn hash64(&self) -> u64 {
         let mut h = std::collections::hash_map::DefaultHasher::new();
         self.hash(&mut h);
